@@ -104,7 +104,8 @@ def apply_contract(ctx, cs, fn, args, kwargs):
         bound = ctx.bind_args(node.args, fn, args, kwargs)
     ns = dict(bound)
     if len(cs) > 1 or cs[0].accepts is not None:
-        sel = [x for x in cs if x.accepts is None or x.accepts(ctx, ns)]
+        forced = ctx.cur_contract.force_contracts if ctx.cur_contract is not None else ()
+        sel = [x for x in cs if x.accepts is None or x.accepts(ctx, ns) or x.target in forced]
         if not sel:
             # no summary fits this call: execute the real body instead (still sound, just not modular)
             if isinstance(target, type):
@@ -161,6 +162,12 @@ def _apply_contract_tail(ctx, c, fn, target, ns, ghosts):
             obj = cur
         val = shape.make(ctx, ctx.fresh_name("%s@%s" % (path, c.short)))
         set_field(ctx, obj, attr, val)
+    for path, f in c.defines.items():
+        base, attr = path.rsplit(".", 1)
+        cur = ns[base.split(".")[0]]
+        for p in base.split(".")[1:]:
+            cur = ctx.getattr_(cur, p)
+        set_field(ctx, cur, attr, ctx.call_spec(f, dict(ns, old=old)))
     for path in c.open_dicts:
         open_dict_of(ctx, ns, path)
     for key, shape in c.state.items():
@@ -542,6 +549,8 @@ def run_contract(eng, c, clause_filter=None):
         try:
             if c.call is not None:
                 result = ctx.call_spec(c.call, ns, strict=False)
+            elif isinstance(target, type) and c.kwargs_call:
+                result = ctx.instantiate(target, [], {p: ns[p] for p in c.args})
             elif isinstance(target, type):
                 result = ctx.instantiate(target, call_args, {})
             elif c.kwargs_call:
@@ -568,6 +577,13 @@ def run_contract(eng, c, clause_filter=None):
                     ctx.note_oblig("%s/post#%s" % (label, nm), "unknown",
                                    {"note": "clause not evaluable on this result: %r" % (r.exc,)})
                     continue
+                except PathEnd:
+                    # vacuity guard: evaluating a postcondition must never silently end the path
+                    ctx.note_oblig("%s/post#%s" % (label, nm), "unknown",
+                                   {"note": "evaluating this clause ran into an infeasible assumption "
+                                            "(an element of a symbolic sequence could not be materialised "
+                                            "consistently?)"})
+                    raise
                 ctx.prove("%s/post#%s" % (label, nm), g, info={"kind": "post"}, assume_after=False)
             for nm, f in c.controls.items():
                 try:
